@@ -36,6 +36,11 @@ def one(commit, subject, kf, args):
     res = {"commit": commit, "subject": subject, "kind": "revert-of-fix"}
     outdir = os.path.join(V, "seeded", "revert-%s" % commit)
     os.makedirs(outdir, exist_ok=True)
+    if args.skip_suite and os.path.exists(os.path.join(outdir, "meta.json")):
+        old = json.load(open(os.path.join(outdir, "meta.json")))        # suite verdict of the earlier full run is kept
+        for k in ("suite", "compiles_and_suite_passes"):
+            if k in old:
+                res[k] = old[k]
     patch = sh(["git", "-C", REPO, "show", "-R", "--format=", commit]).stdout
     open(os.path.join(outdir, "patch.diff"), "w").write(patch)
     sh(["git", "-C", REPO, "worktree", "remove", "--force", wt])
